@@ -27,6 +27,8 @@ func init() {
 			{Name: "root-state-not-reset", File: "extractor/filesystem/filesystem.go", Old: "	wc.inventory = inventory.Inventory{}\n", New: "", Rule: "D3-per-root", Site: "inventory"},
 			{Name: "skip-before-push", File: "extractor/filesystem/filesystem.go", Old: "		wc.dirsVisited++\n		if wc.useGitignore {", New: "		wc.dirsVisited++\n		if wc.shouldSkipDir(path) {\n			return fs.SkipDir\n		}\n		if wc.useGitignore {", Rule: "D5-balanced", Site: "push"},
 			{Name: "append-drops-findings", File: "inventory/inventory.go", Old: "		i.Findings = append(i.Findings, o.Findings...)\n", New: "", Rule: "D3-per-root", Site: "Append"},
+			{Name: "found-flag-overwritten-per-file", File: "extractor/filesystem/filesystem.go", Old: "		wc.foundInv[ex.Name()] = true\n", New: "		wc.foundInv[ex.Name()] = len(results.Packages) > 0\n", Rule: "D3-per-root", Site: "foundInv"},
+			{Name: "virtual-roots-deduplicated", File: "extractor/filesystem/filesystem.go", Old: "		newInv, st, err := runOnScanRoot(ctx, config, root, wc)\n", New: "		if root.Path == \"\" && len(status) > 0 {\n			continue\n		}\n		newInv, st, err := runOnScanRoot(ctx, config, root, wc)\n", Rule: "D3-per-root", Site: "every-root-walked"},
 		},
 		Neutral: handleFileNeutral,
 	})
@@ -45,6 +47,11 @@ func runC08(p *Prog, r *Report) {
 		return
 	}
 	c08PerRoot(p, r, e)
+	onlyLoopEndSkips(p, r, "D3-per-root", "filesystem.Run:every-root-walked", e.Run, func(in ssa.Instruction) bool {
+		c := callOf(in)
+		return c != nil && c.StaticCallee() == e.runOnScanRoot
+	}, nil, "a scan root can be skipped without being walked (e.g. de-duplication by Path, which is empty for every virtual root): its packages and statuses are missing from the union")
+	mapOnlySetTrue(p, r, "D3-per-root", "walkContext", "foundInv", "extractor/filesystem", "the 'extractor found inventory' flag is overwritten per file instead of being sticky for the root: whether an extractor with one failing file is reported failed or partially succeeded depends on which of its files the walk reached last")
 	c08Balanced(p, r, e, "D5-balanced")
 }
 
